@@ -11,5 +11,8 @@ mcCrawl      == { << [src |-> <<6,1,2>>, tgts |-> << <<6,1,2,5>>, <<6,1,2>> >>],
                      [src |-> <<6,1,2,5>>, tgts |-> << <<6,1,2>> >>] >> }
 mcAnchorRules == { [anchor |-> <<6,1,2>>, rule |-> Path1] }
 mcInitRules  == << >>
+mcClearOrder    == <<"XT", "XL">>      \* traph.py: the trie file is re-created first
+mcClearOrderBug == <<"XL", "XT">>      \* mutant: CrashSafe must fail (MC_crash_clearbug.cfg)
+mcOpsClear   == { "AddPage", "AddLinks", "IndexBatchCrawl", "CreateWe", "AddRule", "Clear" }
 mcOps        == { "AddPage", "AddLinks", "IndexBatchCrawl", "CreateWe", "RemovePrefix", "AddRule" }
 =============================================================================
